@@ -552,6 +552,118 @@ def print_oracle(env):
     env.note("print_cases", {"total": len(items), "differ": bad, "items": "ints, strings (also empty / a back-quote), nested lists"})
 
 
+# ---------------------------------------------------------------------------------------
+# oracle only: positions far outside machine words; items and needles that are themselves lists (plain or lazy)
+# ---------------------------------------------------------------------------------------
+FAR = [2 ** 31 - 1, 2 ** 31, 2 ** 32 + 1, 2 ** 63 - 1, 2 ** 63, 2 ** 63 + 1, 2 ** 64, 2 ** 64 + 5, 10 ** 30, 10 ** 100 + 7]
+RICH_ITEMS = [1, 0, "a", "", [2, 3], [], [4, [5]], [[]], [0], ["a"], [2, 3]]
+
+
+def realise(spec, pattern, pos=0):
+    """nested plain lists -> the same value with every list plain or lazy as the bit pattern says"""
+    from vyxal.LazyList import LazyList
+    if not isinstance(spec, list):
+        return spec, pos
+    lazy = (pattern >> (pos % 16)) & 1
+    pos += 1
+    items = []
+    for x in spec:
+        y, pos = realise(x, pattern, pos)
+        items.append(y)
+    return (LazyList(iter(items)) if lazy else items), pos
+
+
+def plain(x):
+    from vyxal.LazyList import LazyList
+    if isinstance(x, (list, tuple, LazyList)):
+        return [plain(y) for y in x]
+    import sympy
+    if isinstance(x, (bool, int, sympy.Integer)):
+        return int(x)
+    return x
+
+
+def rich_case(item):
+    """-> list of (what, lazy answer, list answer) that differ"""
+    from vyxal.LazyList import LazyList
+    src, pat_src, needle, pat_needle, peeks, far = item
+    out = []
+
+    def fresh():
+        items = [realise(x, pat_src >> (3 * k))[0] for k, x in enumerate(src)]
+        L = LazyList(iter(items))
+        for pk in peeks:
+            try:
+                if pk == "len":
+                    len(L)
+                elif pk == "bool":
+                    bool(L)
+                elif pk == "iter":
+                    list(L)
+                elif isinstance(pk, int):
+                    L[pk]
+            except Exception:  # noqa: BLE001
+                pass
+        return L
+
+    def both(what, f_lazy, f_list):
+        try:
+            a = ("ok", plain(f_lazy()))
+        except Exception as e:  # noqa: BLE001
+            a = ("exc", type(e).__name__)
+        try:
+            b = ("ok", plain(f_list()))
+        except Exception as e:  # noqa: BLE001
+            b = ("exc", type(e).__name__)
+        if a != b:
+            out.append((what, a, b))
+    l = [plain(x) for x in src]
+    nd = realise(needle, pat_needle)[0]
+    both("needle in L", lambda: bool(nd in fresh()), lambda: plain(needle) in l)
+    both("L.count(needle)", lambda: fresh().count(nd), lambda: l.count(plain(needle)))
+    both("L == other (same items, other representation)", lambda: bool(fresh() == realise(src, pat_needle)[0]), lambda: True)
+    if l:
+        both("L == other (last item replaced by the needle)", lambda: bool(fresh() == realise(src[:-1] + [needle], pat_needle)[0]),
+             lambda: l == l[:-1] + [plain(needle)])
+    for i in far:
+        both(f"L[{i}]", lambda: fresh()[i], lambda: l[i % len(l)] if l else 0)
+        both(f"L[{-i}]", lambda: fresh()[-i], lambda: l[-i])
+        both(f"L.has_ind({i})", lambda: bool(fresh().has_ind(i)), lambda: 0 <= i < len(l))
+        both(f"L[:{i}]", lambda: fresh()[:i], lambda: l[:i])
+        both(f"L[{i}:]", lambda: fresh()[i:], lambda: l[i:])
+        both(f"L[::{i}]", lambda: fresh()[::i], lambda: l[::i])
+    return out
+
+
+def rich_oracle(env):
+    rng = env.rng
+    items = []
+    peek_sets = [(), ("len",), (0,), (1,), ("iter",), ("bool", 0), (-1,)]
+    for _ in range(env.budget(1500, 12000)):
+        src = [rng.choice(RICH_ITEMS) for _ in range(rng.randint(0, 5))]
+        needle = rng.choice(src) if src and rng.random() < 0.7 else rng.choice(RICH_ITEMS)
+        far = [rng.choice(FAR)] if rng.random() < 0.5 else []
+        items.append((src, rng.getrandbits(16), needle, rng.getrandbits(16), rng.choice(peek_sets), far))
+    for src in ([3, 1, 4], [], [7], [[2, 3], 1]):
+        for pk in peek_sets:
+            items.append((src, 0, 1, 0, pk, FAR))
+    res = V.pmap(rich_case, items, timeout=20)
+    bad = 0
+    for it, (st, val) in zip(items, res):
+        src, ps, needle, pn, peeks, far = it
+        inp = {"kind": "rich", "source": src, "representation_bits": ps, "needle": needle, "needle_bits": pn, "observed_before": list(peeks), "far_positions": far}
+        if st != "ok":
+            env.fail(inp, f"observation did not finish: {st} {val}", cls="C13:rich")
+            continue
+        for what, a, b in val:
+            bad += 1
+            if bad <= 5:
+                env.fail(dict(inp, observation=what), f"{what}: the lazy list answers {a}, the plain list {b}", cls="C13:rich")
+    env.count(len(items), (f"rich:{it[0]}|{it[1]}|{it[2]}|{it[3]}|{it[4]}|{it[5]}" for it in items if it[0]))
+    env.note("rich_cases", {"total": len(items), "differ": bad, "items": "ints, strings, nested lists each plain or lazy per node; needles likewise; "
+                            "positions 2**31-1 .. 10**100 for index / negative index / has_ind / slice bounds and step"})
+
+
 def run(env):
     V.import_repo()
     import vyxal.helpers  # noqa: F401  (import order: helpers first, LazyList imports it back)
@@ -650,6 +762,7 @@ def run(env):
     env.note("random_source_lengths", dict(sorted(collections.Counter(len(c[0]) for c in rcases).items())))
     slice_grid_oracle(env)
     print_oracle(env)
+    rich_oracle(env)
     env.assume("printing (LazyList.output) is outside the Coq model, whose cells hold integers: the oracle alone compares the printed text of a "
                "lazy list of ints / strings / nested lists after observations with the printed text of the plain list")
     env.assume("sources are finite sequences of Python ints (vyxalify is the identity on them); LazyList(list) so raw_object is a list iterator")
